@@ -68,6 +68,9 @@ declarations:
 - decl: int overload(int a)
   doxygen:
     details: a field the doxygen writer does not know, alone in its mapping
+- decl: int globbed(int n)
+  doxygen:
+    brief: counts the files matching src/*/*.c below the directory
 - decl: int overload(double a)
 - decl: void exfunc()
   cpp_if: ifdef USE_A
